@@ -23,6 +23,21 @@ CLAIMED = {
     'C12': ('rule-index dataflow across C++ item -> cache -> Cython finalizer; symbolic call-site terms of Tree.make_binary in readers; path analysis of guess_combinator_by_triplet',
             'The rule index, label, symbol and head flag travel together from one grammar result to the tree node at every hop; readers recover labels with the node\'s own triplet.',
             'tools/ja/reader.py copies symbols from the file and is outside the anchors', 'DESIGN.md 2/C12'),
+    'C03': ('abstract evaluation of each English combinator (symbolic paths, independent pattern parser) against the CCG schema its label names; registry/dispatch completeness',
+            'Patterns, side conditions, result term, label and head flag of all 13 combinators are instances of the labelled schema on every path; dispatch is a filter-free fold.',
+            'takes "unification succeeded" to mean the inputs have the patterns\' shape (C06); schema table transcribed from the property statement', 'DESIGN.md 2/C03'),
+    'C04': ('abstract evaluation of each Japanese combinator against its schema incl. slash preservation; reachability / arity analysis of the unary label function',
+            'All 11 combinators are schema instances with head_is_left=False; every unary label is reachable and decided by the arity it stands for.',
+            'as C03', 'DESIGN.md 2/C04'),
+    'C06': ('typestate analysis of the matcher (provider and all 16 client sites) over symbolic paths; structural necessary conditions of the success relation',
+            'Protocol clauses (answers once, no binding readable after failure) hold on every path on both sides of the interface; scan / feature-agreement structure conforms.',
+            'the full success condition and binding contents quantify over runtime values and are not decided', 'DESIGN.md 2/C06'),
+    'C13': ('dataclass decorator/field analysis; symbolic return terms of __eq__/__xor__/clear_features compared with the declared field sets',
+            'Equality, hashing, feature-blind comparison and erasure are defined over exactly the declared field sets, which for frozen classes of this shape yields the value laws.',
+            'semantics of dataclasses(frozen, eq) trusted', 'DESIGN.md 2/C13'),
+    'C14': ('param-mutation summaries over the call-graph closure, set-iteration lint, dominance of the seen-rule gate, shape-guard analysis of attribute reads',
+            'No path of rule application mutates arguments or shared state, depends on set order, or reads a shape-specific attribute unguarded; the gate and unary lookup have the required shape.',
+            'exceptions outside the enumerated classes (recursion depth, memory) not decided', 'DESIGN.md 2/C14'),
     'C16': ('clang JSON AST: loop-shape rule + two-domain (log/prob) typing of the keep-test + normal forms; option-name plumbing over Python/Cython ASTs',
             'The per-word candidate loop bounds, early stop and threshold domain/normal form hold on every path; option names reach struct config unchanged.',
             'float comparison at the exact threshold not decided', 'DESIGN.md 2/C16'),
